@@ -508,6 +508,8 @@ func checkC03Pairing(c *Ctx, et interface{}) {
 	checkLeaveFilter(c)
 	checkAssignValidation(c)
 	checkSeatLookups(c, "R8")
+	checkSeatManagerConstruction(c, "R8")
+	checkRandomSeatDraw(c, "R2")
 
 	// R4 remove path
 	for _, f := range removers {
